@@ -46,7 +46,8 @@ ClauseNames == {"Completed", "EnumOrder", "BlurIsGrow", "SmearIsIncidence", "CMa
 Clause(name, ww, e) ==
   CASE name = "Completed" -> Ok(e)
     [] name = "EnumOrder" ->
-         e.a \in {"Blur", "Smear"} =>
+         \* (idx = -1: an array that was not produced by the enumeration, e.g. recorded from the repository's tests)
+         (e.a \in {"Blur", "Smear"} /\ e.idx >= 0) =>
             /\ e.m = BitsArray(e.idx, e.h, e.w)
             /\ e.idx = (IF e.group \in DOMAIN cnt THEN cnt[e.group] ELSE 0)
     [] name = "BlurIsGrow" ->
